@@ -63,7 +63,8 @@ def build_attr(name, model, kind, cfg):
     if name in ("SmoothGrad", "SquareGrad", "VarGrad"):
         return getattr(A, name)(model, batch_size=cfg["bs"], nb_samples=3, noise=0.0)
     if name == "Occlusion":
-        return A.Occlusion(model, batch_size=cfg["bs"], patch_size=cfg["patch"], patch_stride=cfg["stride"])
+        tup = lambda v: tuple(v) if isinstance(v, list) else v  # noqa: E731
+        return A.Occlusion(model, batch_size=cfg["bs"], patch_size=tup(cfg["patch"]), patch_stride=tup(cfg["stride"]))
     if name == "Rise":
         return A.Rise(model, batch_size=cfg["bs"], nb_samples=5, grid_size=2, preservation_probability=1.0)
     if name == "Lime":
